@@ -16,6 +16,22 @@ func init() {
 			a.c09Emit()
 			a.c09More()
 			a.drainUnconditional("S.drain")
+			a.drainedKeysGoOut("S.drained-emitted")
+			// a disclosed key is one we no longer accept: acceptance of a data message is behind the test that both key ids
+			// are current or previous (a pair retired on either axis fails it), and that test accepts exactly id and id-1
+			if cs := a.MustFn("(dataMsg).checkSign"); cs != nil {
+				cnt := map[string]int{}
+				for _, site := range a.CallSites(cs) {
+					a.Gate("G.accept-current-keys", ordinalKey(a.C.Name(a.C.owner(site.Parent()))+"|call checkSign", cnt), site, "verification of a data message", "ok:(*keyManagementContext).pickOurKeys", "ok:(*keyManagementContext).pickTheirKey")
+				}
+			}
+			for _, sink := range []string{"(*Conversation).processTLVs", "(*plainDataMsg).decrypt"} {
+				cnt := map[string]int{}
+				for _, site := range a.CallSites(a.MustFn(sink)) {
+					a.Gate("G.accept-current-keys", ordinalKey(a.C.Name(a.C.owner(site.Parent()))+"|call "+sink, cnt), site, "acceptance of a data message", "ok:(*keyManagementContext).pickOurKeys", "ok:(*keyManagementContext).pickTheirKey", "ok:(dataMsg).checkSign")
+				}
+			}
+			a.pickKeysTable()
 		})
 }
 
@@ -409,4 +425,82 @@ func (a *An) c09More() {
 		R.Check(ok && len(movers) > 0, "S.retire-order", ax.rotate+"|retire-implies-move", "whenever a generation's MAC keys are queued for disclosure the key id moves on (the generation really is retired)", a.C.InstrPos(cs[0]),
 			"there is a path on which the MAC keys of generation id-1 are queued for disclosure but the id is not incremented: the keys are disclosed while messages under them are still accepted")
 	}
+}
+
+// drainedKeysGoOut: a data message generator that succeeded has taken the queued MAC keys with it, so the function that
+// called it hands the message on: every return reached after the generator succeeded is a success, or fails only for
+// a reason from the reviewed table (the randomness source while the own instance tag is drawn).
+func (a *An) drainedKeysGoOut(rule string) {
+	R := a.R
+	el := a.newErrLeaves()
+	allowed := []string{"lib:io.ReadFull", "var:errShortRandomRead"}
+	gens := []string{"(*Conversation).genDataMsgWithFlag", "(*Conversation).genDataMsg", "(*Conversation).createSerializedDataMessage"}
+	n := 0
+	for _, gname := range gens {
+		g := a.MustFn(gname)
+		if g == nil {
+			continue
+		}
+		for _, cs := range a.CallSites(g) {
+			f := cs.Parent()
+			si := statusIndex(f.Signature)
+			if si < 0 || cs.Value() == nil {
+				continue
+			}
+			n++
+			var extra []string
+			var at ssa.Instruction
+			for _, r := range a.returnsOf(f) {
+				if !canReach(cs, r) || a.F.LocalAt(r).Has("@fail:"+instKey(cs)) || len(r.Results) <= si {
+					continue
+				}
+				leaves := map[string]bool{}
+				// the generator's own failure is not a failure after it succeeded
+				skip := map[ssa.Value]bool{}
+				if v := cs.Value(); v != nil && v.Referrers() != nil {
+					gsi := statusIndex(cs.Common().Signature())
+					for _, ref := range *v.Referrers() {
+						if ex, isEx := ref.(*ssa.Extract); isEx && ex.Index == gsi {
+							skip[ex] = true
+						}
+					}
+				}
+				var expand func(v ssa.Value, d int)
+				expand = func(v ssa.Value, d int) {
+					v = resolveLocal(v)
+					if phi, isPhi := v.(*ssa.Phi); isPhi && d < 6 {
+						for i, ed := range phi.Edges {
+							// an incoming value that was tested and found nil on its way here
+							if sc := statusCall(resolveLocal(ed)); sc != nil && a.F.endFacts(phi.Block().Preds[i]).Has("@ok:"+instKey(sc)) {
+								continue
+							}
+							expand(ed, d+1)
+						}
+						return
+					}
+					el.val(v, 0, leaves, skip)
+				}
+				expand(r.Results[si], 0)
+				for _, k := range sortedKeys(leaves) {
+					ok := false
+					for _, w := range allowed {
+						if strings.HasPrefix(k, w) {
+							ok = true
+						}
+					}
+					if !ok {
+						extra = append(extra, k)
+						at = r
+					}
+				}
+			}
+			pos := a.C.InstrPos(cs)
+			if at != nil {
+				pos = a.C.InstrPos(at)
+			}
+			R.Check(len(extra) == 0, rule, ordinalKey(a.C.Name(a.C.owner(f))+"|after "+gname, map[string]int{}), "after a data message was generated (and took the queued MAC keys) its caller does not fail for a new reason", pos,
+				"can still fail with: "+strings.Join(extra, "; ")+" — the generated message is dropped together with the MAC keys it was going to disclose, which are then never disclosed")
+		}
+	}
+	R.Check(n >= 5, rule, "sites", "generator call sites found", "", fmt.Sprintf("%d", n))
 }
